@@ -1,0 +1,12 @@
+//go:build verif
+
+package object
+
+// Contracts for the gvc verifier (/verif). Comment-only; never compiled into
+// a normal build.
+
+//gvc:func canonicalTreeMode
+//gvc:  props C04
+//gvc:  theory bv
+//gvc:  ensures canon: result == spec_canon_mode(mode)
+//gvc:end
